@@ -955,6 +955,39 @@ fn check_conversion(cx: &Ctx) {
     if !matches!(r, Ok(Err(4))) { st.fail(mk_fail("C10", "position 256 does not convert to u8 => invalid conversion", "charwise build", MatchKind::Standard, 16, &[], &[], &[], "Err kind 4".into(), format!("{:?}", r.map_err(|_| "panic")))); }
 }
 
+/// C01 / C06 through the position-assigning entry points with a value type narrower than the collection:
+/// the documented outcome is an error; if an automaton is returned nevertheless it has to report every occurrence
+/// of every pattern (C01 speaks about whatever automaton the build hands out).
+fn check_index_entry(cx: &Ctx) {
+    if !(cx.on("C01") || cx.on("C06")) { return; }
+    let st = cx.st;
+    let mk = |n: usize| -> Vec<Vec<u8>> { (0..n).map(|i| vec![b'a' + (i % 26) as u8, b'a' + ((i / 26) % 26) as u8, b'0' + (i / 676) as u8]).collect() };
+    macro_rules! one {
+        ($t:ty, $n:expr, $name:expr) => {{
+            let pats = mk($n);
+            let hay: Vec<u8> = pats.iter().flat_map(|p| p.iter().copied()).collect();
+            let vals: Vec<u32> = (0..pats.len() as u32).collect();
+            let exp: Vec<(usize, usize)> = ref_overlapping(&pats, &vals, &hay).into_iter().map(|m| (m.0, m.1)).collect();
+            for pr in ["C01", "C06"] { if cx.on(pr) {
+                st.tick(pr);
+                if let Ok(Ok(p)) = catch_unwind(|| DoubleArrayAhoCorasick::<$t>::new(&pats)) {
+                    let got: Vec<(usize, usize)> = p.find_overlapping_iter(&hay).map(|m| (m.start(), m.end())).collect();
+                    if got != exp { st.fail(mk_fail(pr, concat!("automaton returned by new() for more patterns than ", $name, " can number reports every occurrence"), "bytewise build", MatchKind::Standard, 16, &[], &[], &[], format!("{} occurrences", exp.len()), format!("{} occurrences", got.len()))); }
+                }
+                let sp: Vec<&str> = pats.iter().map(|p| std::str::from_utf8(p).unwrap()).collect();
+                let hs = std::str::from_utf8(&hay).unwrap();
+                if let Ok(Ok(p)) = catch_unwind(|| CharwiseDoubleArrayAhoCorasick::<$t>::new(&sp)) {
+                    let got: Vec<(usize, usize)> = p.find_overlapping_iter(hs).map(|m| (m.start(), m.end())).collect();
+                    if got != exp { st.fail(mk_fail(pr, concat!("automaton returned by new() for more patterns than ", $name, " can number reports every occurrence"), "charwise build", MatchKind::Standard, 16, &[], &[], &[], format!("{} occurrences", exp.len()), format!("{} occurrences", got.len()))); }
+                }
+            } }
+        }};
+    }
+    one!(u8, 257, "u8");
+    one!(i8, 129, "i8");
+    one!(u8, 300, "u8");
+}
+
 // ------------------------------------------------------------------------------------------------
 // enumeration
 // ------------------------------------------------------------------------------------------------
@@ -1226,6 +1259,13 @@ fn replay(path: &str) -> i32 {
     let cx = Ctx { st: &st, props: &props };
     println!("replaying {} on the real code: kind={:?} nfb={} patterns={:?} haystack={:?}", prop, kind, nfb, pats.iter().map(|p| String::from_utf8_lossy(p).to_string()).collect::<Vec<_>>(), String::from_utf8_lossy(&hay));
     if prop == "C10" && field("clause").starts_with("accepts") { check_accept(&cx, &pats, kind, utf8); }
+    else if pats.is_empty() {
+        // a failure of one of the fixed families (they build their own inputs): run them again for this property
+        println!("(fixed family: the clause names the input it builds)");
+        check_conversion(&cx);
+        check_index_entry(&cx);
+        check_kind_guards(&cx);
+    }
     else {
         let vals = if vals.len() == pats.len() { vals } else { (0..pats.len() as u32).collect() };
         let nfbs = if nfb == 16 { vec![16] } else { vec![16, nfb] };
@@ -1294,6 +1334,7 @@ fn main() {
         run_boundary_chars(&cx);
     }
     check_conversion(&cx);
+    check_index_entry(&cx);
     check_kind_guards(&cx);
     let vt_pats = vec![b(b"ab"), b(b"b"), b(b"abc"), b(b"c"), b("é".as_bytes())];
     check_value_types(&cx, &vt_pats, &b("xabcéb".as_bytes()));
